@@ -85,9 +85,10 @@ var templates = map[string][][]string{
 	// merge
 	"scan": {{"scan", "vns:t:", "count", "5"}, {"scan", "vns:t:", "match", "k*"}}, "advscan": {{"advscan", "vns:t:", "hash", "count", "5"}, {"advscan", "vns:t:", "kv"}},
 	"revscan": {{"revscan", "vns:t:", "count", "5"}}, "advrevscan": {{"advrevscan", "vns:t:", "zset", "count", "5"}},
-	"fullscan":  {{"fullscan", "vns:t:", "kv", "count", "5"}, {"fullscan", "vns:t:", "hash", "count", "3"}, {"fullscan", "vns:t:", "set"}, {"fullscan", "vns:t:", "zset", "match", "z*"}, {"fullscan", "vns:t:", "list"}},
-	"hidx.from": {{"hidx.from", "vns:t", "where", "f1 > 1", "hget", "$", "f2"}, {"hidx.from", "vns:t", "where", "f1 = 1"}},
-	"exists":    {{"exists", "vns:t:k1", "vns:t:nok"}}, "del": {{"del", "vns:t:k1", "vns:t:num"}, {"del", "vns:t:kdel"}},
+	"fullscan": {{"fullscan", "vns:t:", "kv", "count", "5"}, {"fullscan", "vns:t:", "hash", "count", "3"}, {"fullscan", "vns:t:", "set"}, {"fullscan", "vns:t:", "zset", "match", "z*"}, {"fullscan", "vns:t:", "list"}},
+	"hidx.from": {{"hidx.from", "vns:t", "where", "f1 > 1", "hget", "$", "f2"}, {"hidx.from", "vns:t", "where", "f1 = 1"},
+		{"hidx.from", "vns:t", "where", "\"f1 >= 1 and f1 < 9\"", "limit", "0", "5", "hmget", "$", "f1", "f2"}, {"hidx.from", "vns:t", "where", "f1<=3", "hgetall", "$"}},
+	"exists": {{"exists", "vns:t:k1", "vns:t:nok"}}, "del": {{"del", "vns:t:k1", "vns:t:num"}, {"del", "vns:t:kdel"}},
 	"plset": {{"plset", "vns:t:pa", "1", "vns:t:pb", "2"}},
 	// internal-only names (no client route): tried anyway
 	"mset": {{"mset", "vns:t:ma", "1", "vns:t:mb", "2"}}, "hmclear": {{"hmclear", "vns:t:h1"}}, "lmclear": {{"lmclear", "vns:t:l1"}},
@@ -140,6 +141,9 @@ var valuePool = [][]byte{
 	[]byte("181"), []byte("-181"), []byte("86"), []byte("-86"), []byte("90"), []byte("1e308"), []byte("-1e308"), []byte("4.9e-324"), []byte("1e-400"),
 	[]byte("where"), []byte("$"), []byte("*"), []byte("[*"), []byte("a[0]"), []byte("a.b"), []byte("{"), []byte(`{"x":1}`), []byte(`"s"`), []byte("[1,2]"), []byte("null"),
 	[]byte("m1"), []byte("f1"), []byte("v1"), []byte("Palermo"),
+	// HIDX.FROM where-expressions (node/secondary_index.go parseIndexQueryWhere)
+	[]byte("="), []byte("<"), []byte(">"), []byte("<="), []byte(">="), []byte("and"), []byte("f1=1"), []byte("=1"), []byte("f1="),
+	[]byte("f1>1 and f1<9"), []byte("f1=1and=2"), []byte("\"f1 > 1\""), []byte("\""), []byte("f1<=1 and f2>=2"), []byte(" = "), []byte("and and"),
 	// texts the apply path matches error messages against (node/state_machine.go isUnrecoveryError): an
 	// error that quotes a client argument must never be classified by the argument's text
 	[]byte("IO error: No space left on device"), []byte("io error: no space left on device"), []byte("No space left on device"),
